@@ -44,6 +44,21 @@ func effKids(kids []*sg.Node) []*sg.Node {
 	return out
 }
 
+// keyLeaf: the leaf the (first) key of a list names - a child of the entry, or (an extension of this implementation) a leaf
+// below a container of the entry, named by a descendant path
+func keyLeaf(n *sg.Node) *sg.Node {
+	var key *sg.Node
+	kk := n.Kids
+	for _, seg := range strings.Split(n.FirstKey(), "/") {
+		key = find(kk, seg)
+		if key == nil {
+			return nil
+		}
+		kk = key.Kids
+	}
+	return key
+}
+
 func find(kids []*sg.Node, name string) *sg.Node {
 	for _, k := range effKids(kids) {
 		if k.Name == name {
@@ -103,7 +118,16 @@ func (w *world) walk(owner *sg.Mod, kids []*sg.Node, toks []string, i int, incom
 			}
 			return verdict{at: i, kind: "too-short"}
 		}
-		key := find(n.Kids, n.FirstKey())
+		// (the key may name a leaf below a container of the entry by a descendant path, an extension of this implementation)
+		var key *sg.Node
+		kk := n.Kids
+		for _, seg := range strings.Split(n.FirstKey(), "/") {
+			key = find(kk, seg)
+			if key == nil {
+				return verdict{unknown: true}
+			}
+			kk = key.Kids
+		}
 		sp, ok := w.space(owner, key)
 		if !ok {
 			return verdict{unknown: true}
@@ -202,7 +226,7 @@ func randomPath(g *sg.G, w *world) []string {
 			}
 			continue
 		case "list":
-			key := find(n.Kids, n.FirstKey())
+			key := keyLeaf(n)
 			sp, ok := w.space(owner, key)
 			if !ok {
 				return toks
@@ -277,7 +301,9 @@ func genCase(t *rapid.T) Case {
 		str := &sg.TypeSpec{Name: "string"}
 		m0.Nodes = append(m0.Nodes, &sg.Node{Kind: "container", Name: "zn-top", Kids: []*sg.Node{{Kind: "list", Name: "zsite", Key: "name", Kids: []*sg.Node{
 			{Kind: "leaf", Name: "name", Type: str},
-			{Kind: "list", Name: "zport", Key: "num", Kids: []*sg.Node{{Kind: "leaf", Name: "num", Type: &sg.TypeSpec{Name: "uint16"}}, {Kind: "leaf", Name: "speed", Type: &sg.TypeSpec{Name: "uint8"}}}}}}}})
+			{Kind: "list", Name: "zport", Key: "num", Kids: []*sg.Node{{Kind: "leaf", Name: "num", Type: &sg.TypeSpec{Name: "uint16"}}, {Kind: "leaf", Name: "speed", Type: &sg.TypeSpec{Name: "uint8"}}}}}},
+			// a list whose key is a leaf below a container of the entry
+			{Kind: "list", Name: "zkl", Key: "sub/v", Kids: []*sg.Node{{Kind: "container", Name: "sub", Kids: []*sg.Node{{Kind: "leaf", Name: "v", Type: &sg.TypeSpec{Name: "uint8"}}}}, {Kind: "leaf", Name: "w", Type: str}}}}})
 	}
 	w := newWorld(c.Mods)
 	if w == nil {
@@ -288,6 +314,10 @@ func genCase(t *rapid.T) Case {
 		c.Paths = append(c.Paths, []string{"zn-top", "zsite", "a", "zport", bad}, []string{"zn-top", "zsite", "b", "zport", bad}, []string{"zn-top", "zsite", "b", "zport", bad, "speed", "1"},
 			[]string{"zn-top", "zsite", "c", "zport", "80"}, []string{"zn-top", "zsite", "d", "zport", "80", "speed", "300"}, []string{"zn-top", "zsite", "e", "zport", "80", "speed", "300"},
 			[]string{"zn-top", "zsite", "a", "zport", bad}, []string{"zn-top", "zsite", "f", "zport", "80", "nosuch"}, []string{"zn-top", "zsite", "g", "zport", "80", "nosuch"})
+	}
+	if nested {
+		c.Paths = append(c.Paths, []string{"zn-top", "zkl", "5"}, []string{"zn-top", "zkl", "5", "w", "x"}, []string{"zn-top", "zkl", "300"}, []string{"zn-top", "zkl", "x", "w", "y"},
+			[]string{"zn-top", "zkl"}, []string{"zn-top", "zkl", "7", "sub", "v", "7"}, []string{"zn-top", "zkl", "7", "sub"}, []string{"zn-top", "zkl", "7", "nosuch"})
 	}
 	if shared {
 		c.Paths = append(c.Paths, []string{"sha", "shc", "extra", "v"}, []string{"shb", "shc", "extra", "v"}, []string{"sha", "shp"}, []string{"shb", "shp"},
@@ -414,7 +444,7 @@ func choicePaths(w *world) [][]string {
 			case "container":
 				rec(o, k.Kids, append(append([]string(nil), prefix...), k.Name), depth+1)
 			case "list":
-				key := find(k.Kids, k.FirstKey())
+				key := keyLeaf(k)
 				if sp, ok := w.space(o, key); ok {
 					if v, ok := sg.MemberOf(sp); ok {
 						rec(o, k.Kids, append(append([]string(nil), prefix...), k.Name, v), depth+1)
